@@ -572,6 +572,11 @@ fn corpus() -> Vec<(Scenario, Vec<Label>)> {
             Scenario { flush_rows: 1, flush_bytes: big, max_bytes: big, writers: vec![vec![b(0, &[i64::MAX]), b(1, &[i64::MIN, i64::MIN + 1]), b(1, &[i64::MAX, i64::MAX - H])]] },
             parse_sched("W0 W0 W0 W0 W0 W0 X"),
         ),
+        // a zero-row batch is acknowledged at once and stores nothing
+        (
+            Scenario { flush_rows: 2, flush_bytes: big, max_bytes: big, writers: vec![vec![b(0, &[1]), b(0, &[]), b(0, &[2])], vec![b(1, &[])]] },
+            parse_sched("W0 W0 W1 W0 X"),
+        ),
         // BufferFull: the second batch does not fit and must leave no trace
         (
             Scenario { flush_rows: 100, flush_bytes: big, max_bytes: build_batch(&b(0, &[1, 2, 3])).get_array_memory_size() + 8, writers: vec![vec![b(0, &[1, 2, 3]), b(0, &[4]), b(0, &[5])]] },
